@@ -204,6 +204,7 @@ func (g *FuncGen) instr(in ssa.Instruction) {
 			payload = c.fresh("opaque", SInt)
 		} else {
 			payload = c.box(v.S, v.T)
+			g.assumeJunkFree(v.T, t)
 		}
 		g.set(x, Val{T: fmt.Sprintf("(mk_iface %d %s)", c.typeTag(t), payload), S: SIface, GT: x.Type()})
 	case *ssa.TypeAssert:
@@ -1009,6 +1010,78 @@ func (g *FuncGen) convert(v Val, from, to types.Type) Val {
 	return Val{}
 }
 
+// unboxFacts: for an interface value whose dynamic type is t (under guard), boxing its payload gives the value
+// back (boxes of one type are in bijection with the values of the type), and the payload's arrays are junk-free.
+func (g *FuncGen) unboxFacts(iface string, t types.Type, guard string) {
+	c := g.c
+	s := c.sortOf(t)
+	if s == SRef || s == SInt && isPointerLike(t) {
+		return
+	}
+	key := "unboxfacts:" + iface + ":" + s
+	if c.declared[key] || strings.Contains(iface, "q_") {
+		return
+	}
+	c.declared[key] = true
+	k := sortKey(s)
+	c.global(func() {
+		ub := c.unbox(s, fmt.Sprintf("(i_val %s)", iface))
+		c.assert(implies(guard, eq(fmt.Sprintf("(box_%s %s)", k, ub), fmt.Sprintf("(i_val %s)", iface))))
+		if jf := g.junkFree(ub, t, 0); jf != "true" {
+			c.assert(implies(guard, jf))
+		}
+	})
+}
+
+func isPointerLike(t types.Type) bool {
+	switch types.Unalias(t).Underlying().(type) {
+	case *types.Pointer, *types.Map, *types.Chan, *types.Signature:
+		return true
+	}
+	return false
+}
+
+// assumeJunkFree: Go arrays have no elements outside 0..len-1; SMT arrays do.  Values that are boxed into
+// interfaces (where Go's == compares them as a whole) are assumed to hold the zero value at every index
+// outside the Go array - unobservable by the program, and what makes SMT equality coincide with Go's ==.
+func (g *FuncGen) assumeJunkFree(term string, t types.Type) {
+	if strings.Contains(term, "q_") {
+		return
+	}
+	if jf := g.junkFree(term, t, 0); jf != "true" {
+		g.c.assert(implies(g.curGuardOrTrue(), jf))
+	}
+}
+
+func (g *FuncGen) junkFree(term string, t types.Type, depth int) string {
+	c := g.c
+	if depth > 3 {
+		return "true"
+	}
+	switch u := types.Unalias(t).Underlying().(type) {
+	case *types.Array:
+		if isStructType(u.Elem()) || isArrayType(u.Elem()) {
+			return "true"
+		}
+		c.useQuant = true
+		i64 := c.intSort(64)
+		out := not(g.inRange("qj", c.intLit64(u.Len(), 64)))
+		return fmt.Sprintf("(forall ((qj %s)) (=> %s (= (select %s qj) %s)))", i64, out, term, c.zero(u.Elem()))
+	case *types.Struct:
+		_, name, ok := c.structOf(t)
+		if !ok {
+			return "true"
+		}
+		var parts []string
+		for i := 0; i < u.NumFields(); i++ {
+			f := u.Field(i)
+			parts = append(parts, g.junkFree(fmt.Sprintf("(%s!%s %s)", name, fieldName(f), term), f.Type(), depth+1))
+		}
+		return and(parts...)
+	}
+	return "true"
+}
+
 func isByteSlice(t types.Type) bool {
 	sl, ok := types.Unalias(t).Underlying().(*types.Slice)
 	if !ok {
@@ -1041,6 +1114,7 @@ func (g *FuncGen) typeAssert(x *ssa.TypeAssert) {
 		vs = c.sortOf(at)
 		okT = eq(fmt.Sprintf("(i_typ %s)", v.T), fmt.Sprint(c.typeTag(at)))
 		valT = c.unbox(vs, fmt.Sprintf("(i_val %s)", v.T))
+		g.unboxFacts(v.T, at, okT)
 	}
 	if x.CommaOk {
 		val := Val{T: ite(okT, valT, c.zero(at)), S: vs, GT: at}
